@@ -25,7 +25,7 @@ func (c19) Budget(tier string) (int, int) {
 	return 30000, 25
 }
 func (c19) Rule() string {
-	return "REDUCED SCOPE (inputs sampled): histories of 2-10 operations of the zero-allocation class on one Buffer and one destination slice, so that each measured call runs on resources warmed (and dirtied) by arbitrary earlier calls incl. failing ones. A call is measured when it succeeds and its preconditions hold: the Buffer has completed a top-level, non-re-entrant call on a document at least as deeply nested (otherwise the harness first makes one: Valid on the same document), the destination has spare capacity >= len(input) (slack 0..16 drawn per call, so the exact boundary is hit), the handler does not allocate (declines, returns offsets precomputed outside the measured region, or - the repository's benchmark pattern - runs nested traversals four levels deep with one pre-allocated handler and one warmed Buffer per level). Measurement: runtime.MemStats.Mallocs around 8 repetitions at GOMAXPROCS=1, integer average, minimum over up to 3 attempts; oracle: 0. Inputs are drawn per conversion path: exact-float, Eisel-Lemire, >19-digit truncated mantissa, halfway / multiprecision fallback, subnormal and overflow-edge literals, 18/19/20-digit integers, strings with every escape kind incl. surrogate pairs, nesting up to 10,000 equal to the warmed depth. Non-trivial: a measurement was taken after at least one earlier operation on the same resources; distinct = distinct hashes of (function, input class, handler mode, slack, warmed-by) sequences."
+	return "REDUCED SCOPE (inputs sampled): histories of 2-10 operations of the zero-allocation class on one Buffer and one destination slice, so that each measured call runs on resources warmed (and dirtied) by arbitrary earlier calls incl. failing ones. A call is measured when it succeeds and its preconditions hold: the Buffer has completed a top-level, non-re-entrant call on a document at least as deeply nested (otherwise the harness first makes one: Valid on the same document), the destination has spare capacity >= len(input) (slack 0..16 drawn per call, so the exact boundary is hit), the handler does not allocate (declines, returns offsets precomputed outside the measured region, or - the repository's benchmark pattern - runs nested traversals four levels deep with one pre-allocated handler and one warmed Buffer per level). Measurement at GOMAXPROCS=1: runtime.MemStats.Mallocs (a) around the very FIRST call after the preconditions hold (no warm-up call of the measured function; a non-zero reading is repeated up to 3 times on resources rebuilt with identical len/cap, minimum taken) and (b) around 8 further repetitions (integer average, minimum of <= 3 attempts); oracle: 0 for both. Inputs are drawn per conversion path: exact-float, Eisel-Lemire, >19-digit truncated mantissa, halfway / multiprecision fallback, subnormal and overflow-edge literals, 18/19/20-digit integers, strings with every escape kind incl. surrogate pairs, nesting up to 10,000 equal to the warmed depth. Non-trivial: a measurement was taken after at least one earlier operation on the same resources; distinct = distinct hashes of (function, input class, handler mode, slack, warmed-by) sequences."
 }
 func (c19) Assumptions() []string {
 	return []string{
@@ -35,7 +35,7 @@ func (c19) Assumptions() []string {
 	}
 }
 func (c19) Required(tier string) []string {
-	return []string{"measured", "measured-after-failed-call", "path-float-exact", "path-float-eisel-lemire", "path-float-long-mantissa", "path-float-halfway", "path-float-subnormal", "path-int-18", "path-int-19", "path-int-20",
+	return []string{"measured", "first-call-measured", "measured-after-failed-call", "path-float-exact", "path-float-eisel-lemire", "path-float-long-mantissa", "path-float-halfway", "path-float-subnormal", "path-int-18", "path-int-19", "path-int-20",
 		"path-string-escapes", "path-string-surrogate-pair", "path-depth-equals-warmed", "path-decode-null", "handler-consume", "handler-decline", "handler-nested-per-level-buffers", "dst-slack-0"}
 }
 
@@ -460,23 +460,60 @@ func (c19) Exec(sc *Scenario, st *Stats) *Violation {
 				st.probe("dst-slack-0")
 			}
 		}
+		if isDocFn && warmDepth < depth {
+			// could not be warmed (e.g. beyond the depth limit): executed, not measured
+			func() {
+				defer func() { recover() }()
+				c19call(op.Kind, x, data)
+			}()
+			continue
+		}
+		// The FIRST call after the preconditions hold is measured on its own: the property does
+		// not grant a warm-up call of the same function. Resource shapes (stack len/cap, dst
+		// len/cap) are recorded so that a suspicious measurement can be repeated on an identical state.
+		sl, sc0 := len(buf.VerifStack()), cap(buf.VerifStack())
+		dl, dc := len(x.dst), cap(x.dst)
 		ok := false
 		panicked := ""
-		func() {
-			defer func() {
-				if r := recover(); r != nil {
-					panicked = panicString(r)
+		first := ^uint64(0)
+		for attempt := 0; attempt < 4 && first != 0; attempt++ {
+			if attempt > 0 {
+				if isDocFn {
+					buf.VerifSetStack(make([]int, sl, sc0))
+				}
+				if isStrFn {
+					nd := make([]byte, dc)
+					copy(nd, dstBacking[:dl])
+					x.dst = nd[:dl:dc]
+				}
+			}
+			func() {
+				defer func() {
+					if r := recover(); r != nil {
+						panicked = panicString(r)
+					}
+				}()
+				var a, b runtime.MemStats
+				runtime.ReadMemStats(&a)
+				ok = c19call(op.Kind, x, data)
+				runtime.ReadMemStats(&b)
+				if d := b.Mallocs - a.Mallocs; d < first {
+					first = d
 				}
 			}()
-			ok = c19call(op.Kind, x, data) // warm-up run, also decides success
-		}()
+			if panicked != "" || !ok {
+				break
+			}
+		}
 		if panicked != "" || !ok {
 			lastFailed = true
 			st.evi("fail", 1)
 			continue
 		}
-		if isDocFn && warmDepth < depth {
-			continue // could not be warmed (e.g. beyond the depth limit)
+		st.probe("first-call-measured")
+		if first != 0 {
+			return &Violation{Class: "allocates", Task: 0, Op: oi, Sig: "C19/allocates-first-call/" + op.Kind + "/" + d.Class,
+				Detail: fmt.Sprintf("call %d, %s on %q (class %s, handler mode %d, dst slack %d, Buffer stack len %d cap %d): %d heap allocations in the first successful call on resources that already meet the preconditions", oi, op.Kind, clip(string(data), 80), d.Class, op.A, op.B, sl, sc0, first)}
 		}
 		n := measureAllocs(op.Kind, x, data)
 		st.probe("measured")
